@@ -304,11 +304,11 @@ impl Runner {
             let _ = sc.project(&["k", "img"]);
             let what = format!("nearest(vec, k={}, metric={}, use_index={}, index={:?}, prefilter={:?})", k, if cosine { "cosine" } else { "l2" }, use_index, idx_kind, filter.as_ref().map(|p| p.sql()));
             self.res.probe("knn-queries");
-            let res = async {
+            let res = crate::table::with_deadline(3600, &what, async {
                 let s = sc.try_into_stream().await?;
                 let b: Vec<arrow_array::RecordBatch> = s.try_collect().await?;
                 lance_core::Result::Ok(b)
-            }
+            })
             .await;
             let batches = match res {
                 Ok(b) => b,
@@ -362,13 +362,13 @@ impl Runner {
                     }
                     Some(t) => {
                         if (d - t).abs() > tol(*t) {
-                            self.res.violate("C22", "O-knn", &format!("knn-distance-value:{}", if cosine { "cosine" } else { "l2" }), self.step, format!("{}: image {} reported distance {} recomputed {}", what, img, d, t));
+                            self.res.violate("C22", "O-knn", &format!("knn-distance-value:{}{}", if cosine { "cosine" } else { "l2" }, if use_index && idx_kind.is_some() { stable_tag } else { "" }), self.step, format!("{}: image {} reported distance {} recomputed {}", what, img, d, t));
                             bad = true;
                         }
                     }
                 }
                 if d + 1e-6 < prev {
-                    self.res.violate("C22", "O-knn", "knn-not-sorted", self.step, format!("{}: distances not ascending ({} after {})", what, d, prev));
+                    self.res.violate("C22", "O-knn", &format!("knn-not-sorted{}", if use_index && idx_kind.is_some() { stable_tag } else { "" }), self.step, format!("{}: distances not ascending ({} after {})", what, d, prev));
                     bad = true;
                 }
                 prev = d;
@@ -436,11 +436,11 @@ impl Runner {
                 continue;
             }
             let _ = sc.project(&["k", "img"]);
-            let res = async {
+            let res = crate::table::with_deadline(3600, &what, async {
                 let s = sc.try_into_stream().await?;
                 let b: Vec<arrow_array::RecordBatch> = s.try_collect().await?;
                 lance_core::Result::Ok(b)
-            }
+            })
             .await;
             let batches = match res {
                 Ok(b) => b,
@@ -459,7 +459,10 @@ impl Runner {
             };
             if got != expect {
                 let unindexed = self.res.kinds.iter().rev().take_while(|k| *k != "create_fts_index").any(|k| k == "append" || k == "merge" || k == "update");
-                self.res.violate("C23", "O-fts", &format!("fts-match-set:{}{}{}", ["match-or", "match-and", "phrase"][mode as usize], if unindexed { ":unindexed-tail" } else { "" }, if self.ctx.stable_row_ids { ":stable-row-ids" } else { "" }), self.step, format!("{}: returned {} docs, expected {}; only-lance {:?} only-model {:?}", what, got.len(), expect.len(), got.difference(&expect).take(4).collect::<Vec<_>>(), expect.difference(&got).take(4).collect::<Vec<_>>()));
+                self.res.violate("C23", "O-fts", &format!("fts-match-set:{}{}{}", ["match-or", "match-and", "phrase"][mode as usize], if unindexed { ":unindexed-tail" } else { "" }, if self.ctx.stable_row_ids { ":stable-row-ids" } else { "" }), self.step, {
+                    let text_of = |img: &i64| self.st.rows.iter().find(|r| r[imgi].as_i64() == Some(*img)).map(|r| format!("{}={:?}", img, r[ti])).unwrap_or_else(|| format!("{}=<not a live row>", img));
+                    format!("{}: returned {} docs, expected {}; only-lance {:?} only-model {:?}", what, got.len(), expect.len(), got.difference(&expect).take(4).map(text_of).collect::<Vec<_>>(), expect.difference(&got).take(4).map(text_of).collect::<Vec<_>>())
+                });
                 continue;
             }
             if let Some(si) = si {
